@@ -6,10 +6,11 @@ const TAGS = {
   div: { open: 'div' }, Comp: { open: 'Comp' }, member: { open: 'a.b' }, member3: { open: 'a.b.c' }, thisx: { open: 'this.x', method: true },
   nstag: { open: 'ns:tag' }, svgns: { open: 'svg:rect' }, dashed: { open: 'a-b' }, frag: { open: '' },
 };
-const ATTR_NAMES = ['{...x}', 'p', 'ns:name', 'v-foo', 'vFoo', 'v-foo:arg_mod', 'v-foo_a-b', 'v-model', 'v-model:a', 'v-model_m', 'v-models', 'v-slots', 'v-html', 'v-text', 'v-show', 'on', 'class', 'key', 'ref'];
+const ATTR_NAMES = ['{...x}', 'p', 'ns:name', 'v-foo', 'vFoo', 'v-foo:arg_mod', 'v-foo_a-b', 'v-', 'v-_lazy', 'v-\u00e9t\u00e9', 'v\u00c9', 'v--x', 'v-model', 'v-model:a', 'v-model_m', 'v-models', 'v-slots', 'v-html', 'v-text', 'v-show', 'on', 'class', 'key', 'ref'];
 const ATTR_VALUES = {
   absent: '', str: '="s"', strEmpty: '=""', x: '={x}', arrEmpty: '={[]}', arrHole: '={[,]}', arrHole2: '={[, x]}', arr1: '={[x]}', arrSpread: '={[...x]}', arrArg: "={[x, 'a']}",
   arrMods: "={[x, ['m']]}", arrOdd: "={[x, y, ['a-b', 'c d', '1x']]}", arr2d: "={[[x], [y, 'n']]}", arr2dOdd: '={[[], [, x], x, [...x]]}', arrModsOdd: '={[x, [y, ...x, 1]]}',
+  member: '={a.b}', index: '={a[0]}', optchain: '={a?.b}', optindex: '={a?.[0]}', optcall: '={a?.()}', call: '={a()}', paren: '={(x)}', thisMember: '={this.x}', assignExpr: '={x = y}',
   el: '=<b/>', frag: '=<></>', elNested: '=<b v-html=<i/> />', obj: '={{ a: x }}', fn: '={() => x}', num: '={1}', tplStr: '={`a${x}`}',
 };
 const CHILDREN = { none: '', text: 'txt', empty: '{}', cmt: '{/* c */}', el: '<i/>', nsel: '<ns:c/>', spread: '{...x}', member: '<a.b/>', str: '{"s"}' };
@@ -62,6 +63,7 @@ function* cases(tier) {
     yield { ts: false, tag, attrs: tag === 'frag' ? [] : [{ n: 'p', v: 'x' }], ch, pragma, o };
   }
   // (4) option corners on single attributes
+  for (const o of OPT_CORNERS.slice(1)) for (const tag of ['dashed', 'member', 'nstag']) for (const ch of ['none', 'el']) yield { ts: !!o.resolveType, tag, attrs: [], ch, pragma: 'none', o };
   for (const o of OPT_CORNERS.slice(1)) for (const tag of ['div', 'Comp']) for (const n of ATTR_NAMES) for (const v of VALUE_CORE) if (n[0] !== '{' || v === 'absent') yield { ts: !!o.resolveType, tag, attrs: [{ n, v }], ch: 'none', pragma: 'none', o };
 }
 
